@@ -217,7 +217,7 @@ to /repo; the later evaluations ran in scratch worktrees through `VERIF_REPO`). 
   rendered again (C14), no context with a DEBUG logger and no direct count of the scratch registers handed out (C16),
   no one-shot iterable as argument list (C17), no fixed-width ISA and the ABI's attribute table read from the code
   (C18 - the oracle now uses the psABI's table written down in the runner), no retarget and deletion of one symbol in
-  one context (C19). After the strengthening the whole round was evaluated again under `VERIF_SEED=1` (the three stalling changes once more under seed 0 after their repair): 54 of 60 caught with a failing input, 2 only as a broken correspondence (C02/r6m1, C03/r6m2), 4 missed.
+  one context (C19). After the strengthening the whole round was evaluated again under `VERIF_SEED=1` (the three stalling changes once more under seed 0 after their repair): 54 of 60 caught with a failing input, 2 only as a broken correspondence (C02/r6m1 - caught with a failing input once the recorded end-label finding was recognised on its input instead of on the outcome alone - and C03/r6m2), 4 missed.
   Not caught and left so, with the reason: C02/r6m3 (a label at the very end of a patch's extra section inside an
   explicit CFI procedure of an inserted function - the generator has no inserted functions with cold sections that end in
   a label), C05/r6m2 (two sections of one name, one of them without byte intervals - the builder names sections
